@@ -70,7 +70,7 @@ pub fn build_spec(property: &str, tier: &str, seed: u64) -> Option<Spec> {
             ];
             Some(Spec {
                 property: "C03", level: "fault_enumeration", phases,
-                rule: "hostile-stream-search: seeded runs over corpus documents, generated documents, token soup, random characters and random bytes, through all 13 entry points x 4 option sets x 5 Parse targets, with 0-5 faults (Fail, End, Flip, BitFlip, Drop, Dup, Swap, Insert with foreign byte lengths, Resume = non-fused None, FailThenResume) and random length profiles; corpus-prefixes-and-byte-edits: every prefix and every single-byte substitution (all 256 values) of every corpus document <= 2 KiB through parse_slice*; deep-nesting-small-stack: child processes parsing (and, on success, traversing) nesting depths 10^3..2*10^6 of six shapes x fourteen tails inside a 64/128/256 KiB thread. A case is one explicit stream scenario or deep scenario; distinct = distinct digest; non-trivial = a fault was delivered at or before the parser's last pull (stream phases) or depth >= 1000 (deep phase).".into(),
+                rule: "hostile-stream-search: seeded runs over corpus documents, generated documents, token soup, random characters and random bytes, through all 14 entry points (the 13 of the Parse trait and Parser::new_with + parse_in under the four contexts) x 4 option sets x 5 Parse targets, with 0-5 faults (Fail, End, Flip, BitFlip, Drop, Dup, Swap, Insert with foreign byte lengths, Resume = non-fused None, FailThenResume) and random length profiles; corpus-prefixes-and-byte-edits: every prefix and every single-byte substitution (all 256 values) of every corpus document <= 2 KiB through parse_slice*; deep-nesting-small-stack: child processes parsing (and, on success, traversing) nesting depths 10^3..2*10^6 of six shapes x fourteen tails inside a 64/128/256 KiB thread. A case is one explicit stream scenario or deep scenario; distinct = distinct digest; non-trivial = a fault was delivered at or before the parser's last pull (stream phases) or depth >= 1000 (deep phase).".into(),
                 assumptions: vec![
                     "oracle = Ok | Err, no panic (overflow checks and debug assertions on), bounded polling (stream watchdog at items + 10 000 polls), child exit status 0 for deep scenarios".into(),
                     "hangs that never touch the stream are caught by the supervisor's wall-clock limit only".into(),
@@ -128,7 +128,7 @@ pub fn judge_scenario(property: &str, sc: &Scenario) -> Result<Option<(String, S
     let mut st = Stats::default();
     let v = match (property, sc) {
         ("C07", Scenario::Stream(s)) => {
-            if !s.strict() || s.target != crate::stream::tape::Target::Value || !s.ends_at_terminal() { return Err("not a C07 scenario (must be strict, target Value, nothing delivered after the first terminal event)".into()); }
+            if !s.strict() || s.target != crate::stream::tape::Target::Value || !s.ends_at_terminal() || s.entry == crate::stream::tape::Entry::ParseIn { return Err("not a C07 scenario (must be strict, target Value, nothing delivered after the first terminal event)".into()); }
             c07::execute_c07(s, 0, &mut st, 0, None).violation
         }
         ("C03", Scenario::Stream(s)) => c03::execute_c03(s, 0, &mut st, 0, None).violation,
